@@ -70,7 +70,7 @@ SOFT_RULES = {
     "PARENT-WALK", "KIND-BRANCH", "SORT-GUARD", "EXH-5", "LIMIT", "REGEX-FULL", "RANGE-GUARD", "EXIST-CMP", "DATAID-DEF", "ITER-NORET",
     "FRAME", "STALE-ALIAS",
     # rules that were derived from individual seeded changes and look at one construct each
-    "UNIQ-SCOPE", "SLOT-NEW", "REC-FWD", "MOVE-ORDER", "ALIAS-ARG", "PRED-NORM", "GUARD-TREE", "DATA-IS", "CACHE-INVAL", "RET-USED",
+    "UNIQ-SCOPE", "SLOT-NEW", "REC-FWD", "MOVE-ORDER", "ALIAS-ARG", "PRED-NORM", "GUARD-TREE", "DATA-IS", "CACHE-INVAL", "RET-USED", "ENUM-POS",
 }
 
 
@@ -108,6 +108,7 @@ class Ctx:
             c.root = self.root
             c.paths_enumerated = 0
             c._projected = c
+            c.unprojected = self  # a pin rule may look at the unprojected code for a structural clause
             self._projected = c
         return self._projected
 
